@@ -449,6 +449,35 @@ PROPS = {
         design_ref='DESIGN.md section 8 (C19)',
         assumptions=['sufficiency proved at the level of types; bindability and embedding equivalence validated differentially'],
     ),
+    'C20': dict(
+        monitor=True,
+        streams=[pair_stream('refltwin', 4000, 100000),
+                 dict(name='curry', n_quick=6000, n_thorough=300000, nontrivial=lambda c, o: o.startswith('CURRY ok'), compare=lambda c, o, m: o == m, wf_check=False),
+                 dict(name='saveto', n_quick=3000, n_thorough=100000, nontrivial=lambda c, o: o.startswith('SAVETO ok'), compare=lambda c, o, m: o == m, wf_check=False),
+                 dict(name='filler', n_quick=6000, n_thorough=300000, nontrivial=lambda c, o: o.startswith('FILL ok'), compare=lambda c, o, m: o == m, wf_check=False),
+                 chain_stream(3000, 100000, _nt_bound)],
+        rule=CHAIN_RULE + 'stream refltwin: a chain of plain functions paired with the same chain in which a random subset of injectors, wrappers and the final function '
+             'is supplied through MakeReflective / ReflectiveWrapper; monitor: the two observations (plan, wiring, results, call log) are identical. '
+             'stream curry: original functions of 1-7 parameters over 3-5 types (repeats, a func-typed parameter now and then) and curried signatures keeping a '
+             'random sub-multiset in random order, plus invalid variants (type curried twice, extra/missing parameter, nothing curried, first curried input a function); '
+             'the chain supplies per-invocation values for the curried-away types, is invoked 1-4 times and the curried function is called after each invocation: the '
+             'arguments the original function receives must be those direct computation gives (C20B-style staleness shows on the second invocation). '
+             'stream saveto: 1-6 pointers over 2-6 types (same type repeated, func pointer first), 1-4 invocations. '
+             'stream filler: struct types built with reflect.StructOf (1-5 fields per level, nesting up to depth 5, tags nofill/fill/skip/-/whole/blob/fields, user tags) '
+             'and two declared types with unexported fields, pointer and value models, post-actions by tag, by name and by type taking the field or its address, '
+             'with and without WithFill; 1-3 invocations; observed: Bind error or, per invocation, the order and arguments of the post-actions and every leaf of the '
+             'struct the final function receives',
+        level_text='Theorems C20_reflective_irrelevant (replacing any subset of providers by Reflective equivalents leaves the whole model observation unchanged), '
+                   'C20_curry_args_typed / C20_curry_curried_distinct / C20_curry_pass_order (every parameter of the original function gets a value of its type, '
+                   'the injected one or the k-th argument of that type), C20_saveto, C20_struct_plan_paths + C20_fill_spec (for any tags and post-actions the inputs '
+                   'are stored at pairwise independent existing places, each lands at its field, nothing else changes) and C20_struct_plan_plain (untagged structs: '
+                   'exactly the exported fields, recursively, in declaration order); all lists, shapes and depths; Coq, no axioms. The models of utils.go and filler.go '
+                   'are tied to /repo by the curry, saveto and filler streams; post-action order and the tag rules are part of the model and validated by the stream, '
+                   'their specification beyond the plain case is the model itself.',
+        level_note=CHAIN_NOTE + ' WithMethodCall, FillExisting, MatchToOpenInterface and field/function type conversion in post-actions are not exercised.',
+        design_ref='DESIGN.md section 8 (C20)',
+        assumptions=['tag and post-action rules of MakeStructBuilder are modelled and validated differentially; proved: where inputs land and the plain-struct field set'],
+    ),
 }
 
 SHRINKERS = {
